@@ -209,31 +209,39 @@ def uid_filter_facts(run, rel, fn, notes):
 
 
 def root_facts(run, notes):
+    """only_root: the id query and the constant it is compared with (== or !=; which branch passes is the correspondence's matter).
+    The query may be used directly in the comparison or be stored, unconverted, in a uid_t variable first."""
     out = {"query": "QOther", "value": -1}
     tu = clang_ast(run, "src/filter/only_root.c")
-    f = functions(tu).get("snoopy_filter_only_root")
-    if not f:
+    group, _ = with_static_helpers(tu, "snoopy_filter_only_root")
+    if not group:
+        notes.append("translator: snoopy_filter_only_root not found")
         return out
-    calls = [callee_name(n) for n in walk(f) if n.get("kind") == "CallExpr"]
+    calls = [callee_name(n) for node in group.values() for n in walk(node) if n.get("kind") == "CallExpr"]
     idq = sorted(set(c for c in calls if c and IDQ_FAMILY.match(c)))
-    for n in walk(f):
-        if n.get("kind") == "BinaryOperator" and n.get("opcode") == "==":
-            sides = [strip(x) for x in n["inner"]]
-            lit = [s for s in sides if s.get("kind") == "IntegerLiteral"]
-            # the literal may sit under an IntegralCast to unsigned int
-            if not lit:
-                for s in n["inner"]:
-                    t = s
-                    while t.get("kind") in ("ImplicitCastExpr", "ParenExpr") and t.get("inner"):
-                        t = t["inner"][0]
-                    if t.get("kind") == "IntegerLiteral":
-                        lit = [t]
-            call = [s for s in n["inner"] if cast_chain(s)[1] in IDQ and cast_chain(s)[0] == []]
-            if lit and call and len(idq) == 1:
-                out["query"] = IDQ[idq[0]]
-                out["value"] = int(lit[0].get("value", "-1"))
+
+    def literal(n):
+        while n.get("kind") in ("ImplicitCastExpr", "ParenExpr", "CStyleCastExpr") and n.get("inner"):
+            n = n["inner"][0]
+        return n if n.get("kind") == "IntegerLiteral" else None
+    for g, node in group.items():
+        vtypes = {n["name"]: dtype(n) for n in walk(node) if n.get("kind") in ("VarDecl", "ParmVarDecl") and "name" in n}
+        idvars = set()
+        for lv, rhs in assignments(node):
+            ch, cal = cast_chain(rhs)
+            if cal in IDQ and ch == [] and INT_TYPES.get(vtypes.get(lv)) == ("u", 32):
+                idvars.add(lv)
+        for n in walk(node):
+            if n.get("kind") == "BinaryOperator" and n.get("opcode") in ("==", "!="):
+                sides = n["inner"]
+                lit = [literal(x) for x in sides if literal(x) is not None]
+                direct = [x for x in sides if cast_chain(x)[1] in IDQ and cast_chain(x)[0] == []]
+                viavar = [x for x in sides if var_of(x) in idvars]
+                if lit and (direct or viavar) and len(idq) == 1:
+                    out["query"] = IDQ[idq[0]]
+                    out["value"] = int(lit[0].get("value", "-1"))
     if out["query"] == "QOther":
-        notes.append("translator: only_root.c comparison not recognised (calls %s)" % idq)
+        notes.append("translator: only_root.c: comparison (== / !=) of an integer literal with the id query (direct, or stored unconverted in a uid_t variable) not recognised (calls %s)" % idq)
     return out
 
 
